@@ -400,6 +400,9 @@ func visitInstr(fr *frame, instr ssa.Instruction) continuation {
 		v := fr.get(instr.Value)
 		switch m := m.(type) {
 		case map[value]value:
+			if mk, found := symMapKey(m, key); found {
+				key = mk
+			}
 			m[key] = v
 		case *hashmap:
 			m.insert(key.(hashable), v)
@@ -551,6 +554,18 @@ func callSSA(i *interpreter, caller *frame, callpos token.Pos, fn *ssa.Function,
 		}
 		if fn.Name() == "init" && fn.Synthetic != "" && fn.Pkg != nil && InitAllow != nil && !InitAllow(pkgPath) {
 			return nil
+		}
+		if len(stubOn) > 0 && stubOn[fn.Name()] && fn.Pkg != nil {
+			// symStub: calls to a function of the package under test are redirected
+			// to the harness function VerifStub_<name> (same signature)
+			if st := fn.Pkg.Func("VerifStub_" + fn.Name()); st != nil {
+				return callSSA(i, caller, callpos, st, args, nil)
+			}
+			if MainPkg != nil {
+				if st := MainPkg.Func("VerifStub_" + fn.Name()); st != nil {
+					return callSSA(i, caller, callpos, st, args, nil)
+				}
+			}
 		}
 		if strings.HasPrefix(fn.Name(), "sym") && strings.HasPrefix(pkgPath, "github.com/jrhy/") {
 			if h := Intrinsics[fn.Name()]; h != nil {
@@ -737,6 +752,7 @@ func doRecover(caller *frame) value {
 }
 
 var needsInit = map[*ssa.Global]bool{}
+var MainPkg *ssa.Package
 
 type Machine struct {
 	i       *interpreter
@@ -760,6 +776,7 @@ func Setup(mainpkg *ssa.Package, mode Mode, sizes types.Sizes) *Machine {
 	}
 	initReflect(i)
 	m := &Machine{i: i, mainpkg: mainpkg, presets: map[*ssa.Global]value{}}
+	MainPkg = mainpkg
 	for _, pkg := range i.prog.AllPackages() {
 		for _, mem := range pkg.Members {
 			if v, ok := mem.(*ssa.Global); ok {
@@ -897,4 +914,14 @@ func isRepoFunc(fn *ssa.Function) bool {
 	}
 	repoFuncCache[fn] = r
 	return r
+}
+
+var stubOn = map[string]bool{}
+
+func init() {
+	pathResets = append(pathResets, func() { stubOn = map[string]bool{} })
+	Intrinsics["symStub"] = func(fr *frame, a []value) value {
+		stubOn[strArg(a[0])] = a[1].(bool)
+		return nil
+	}
 }
